@@ -413,6 +413,10 @@ func PrefixOf(p, s *Term) *Term {
 		return TrueT
 	}
 	pp, ps := flatten(p), flatten(s)
+	if len(ps) > 0 && ps[0].Op == "from_int" && len(pp) > 0 && pp[0].IsConst() && (pp[0].S[0] < '0' || pp[0].S[0] > '9') {
+		// from_int yields decimal digits only (or "" for negatives)
+		return FalseT
+	}
 	i := 0
 	for i < len(pp) && i < len(ps) && SameTerm(pp[i], ps[i]) {
 		i++
@@ -583,6 +587,9 @@ func ToInt(s *Term) *Term {
 		if v, err := strconv.ParseInt(s.S, 10, 64); err == nil {
 			return IntC(v)
 		}
+	}
+	if s.Op == "from_int" {
+		return Ite(Le(IntC(0), s.Args[0]), s.Args[0], IntC(-1))
 	}
 	return &Term{Op: "to_int", Sort: SInt, Args: []*Term{s}}
 }
